@@ -52,7 +52,14 @@ package cutter
 //@   modifies removeN, removes, qMin
 //@   ensures removeN == num && removes == old(removes) + 1
 //@   ensures err == nil ==> len(ops) <= num && (num <= old(qMin) ==> len(ops) == num) && queuedNonNil(ops)
+// ghost: calls of the queue's Add and what the last one answered
+//@ ghost qAdds int
+//@ ghost qLastN uint
+//@ ghost qLastErr error
 //@ iface OperationQueue.Add
+//@   results n, err
+//@   modifies qAdds, qLastN, qLastErr
+//@   ensures qAdds == old(qAdds) + 1 && qLastN == n && qLastErr == err
 //@ iface api/protocol.Client.Current
 //@   results v, err
 //@   ensures err == nil ==> v != nil && v == curVer(this)
@@ -61,6 +68,10 @@ package cutter
 //@   requires r != nil && r.pendingBatch != nil
 //   the operation is queued as it was handed in, under the protocol version it was handed in with (never re-stamped)
 //@   atcall Add arg1 == op_0 && arg2 == protocolVersion_0
+//   the queue is asked exactly once and its answer is the cutter's answer (a refusal is never reported as success)
+//@   results n, err
+//@   ensures qAdds == old(qAdds) + 1 && n == qLastN && err == qLastErr
+//@   modifies qAdds, qLastN, qLastErr
 //
 //@ func (*BatchCutter).Cut
 //@   requires r != nil && r.pendingBatch != nil && r.client != nil
